@@ -55,6 +55,24 @@ PROPS = {
         "assumptions": STD_ASSUME_PURE + ["broadcast channel never overflows (each connection task sees every SendOwnState), see DESIGN.md C11/C14",
                                            "new_optimistic_peers returns at most MAX_OPTIMISTIC peers, each currently choked and interested (read off the code: choose() of that filtered list)"],
     },
+    "C01": {
+        "lean_modules": ["RdestModel.Props.C01"],
+        "cases": {"quick": 400, "thorough": 12000},
+        "rule": "scripts for the real connection task (in-memory stream, scratch working directory): assignments with correct and with deliberately wrong "
+                "listed hashes, blocks correct / corrupt / duplicated / overlapping / unrequested / mis-indexed / truncated, several pieces per "
+                "connection, cancellation by broadcast, disconnect at any point; observed: every *.piece file written (name, SHA-1 recomputed by the "
+                "harness, length), PieceDone commands, termination; monitor P01 on the implementation's and the model's trace; manager side by the "
+                "C12 histories; distinct = distinct scripts",
+        "assumptions": STD_ASSUME_PURE + ["external modification of *.piece files and SHA-1 collisions are outside; sha1 is a parameter of every theorem"],
+    },
+    "C11": {
+        "lean_modules": ["RdestModel.Props.C11"],
+        "cases": {"quick": 400, "thorough": 12000},
+        "rule": "scripts for the real connection task: random interleavings of SendHave broadcasts (also for the piece being downloaded), Choke / "
+                "Unchoke frames, handshake position, SendOwnState; observed: order and content of Have / Bitfield frames; monitor P11 on the "
+                "implementation's and the model's trace; the manager's init bitfield is compared in the C12/C14 histories; distinct = distinct scripts",
+        "assumptions": STD_ASSUME_PURE + ["the broadcast channel (capacity 32) never overflows: a task blocked in a socket write can lag and lose SendHave (runtime condition outside the model)"],
+    },
     "C10": {
         "lean_modules": ["RdestModel.Props.C10"],
         "cases": {"quick": 400, "thorough": 12000},
